@@ -8,6 +8,7 @@ Values cross the line protocol as PV literals (`i:5`, `u:u64:7`, `f:num/den`, `a
 are compared as strings: type AND value must agree."""
 from __future__ import annotations
 
+import os
 import random
 
 import numpy as np
@@ -286,6 +287,60 @@ def suite_gen(which: set[str]):
                             M.np = np
                         args = list(st_c) + list(st_s) + [thr, fn]
                         compare("_BFSubcluster_merge_subcluster", args, r if isinstance(r, str) else (r,) + state(c), exp_tab=proxy.calls)
+            if "validate" in which:
+                import shutil as _shutil
+                import tempfile as _tmp
+                from pathlib import Path as _P
+                import bblean.cli as CLI
+                base = _P(_tmp.mkdtemp(prefix="bbverif-val-", dir=os.environ.get("VERIF_SCRATCH", "/var/tmp")))
+                try:
+                    for i in range(max(40, N // 4)):
+                        kind = rng.choice(["absent", "file", "empty", "files", "subdir", "files"])
+                        ow = rng.random() < 0.5
+                        pth = base / f"d{i}"
+                        if kind == "file":
+                            pth.write_text("x")
+                        elif kind != "absent":
+                            pth.mkdir()
+                            if kind == "files":
+                                for j in range(rng.randint(1, 3)):
+                                    (pth / f"f{j}.pkl").write_text("old")
+                            elif kind == "subdir":
+                                (pth / "input-fps").mkdir()
+                                (pth / "input-fps" / "a.npy").write_text("old")
+                        exists, isdir = pth.exists(), pth.is_dir()
+                        nonempty = bool(isdir and any(pth.iterdir()))
+                        rec = []
+
+                        class ShProxy:
+                            def __getattr__(self, k):
+                                return getattr(_shutil, k)
+
+                            @staticmethod
+                            def rmtree(p_, *a, **k):
+                                rec.append(("shutil.rmtree", "out_dir"))
+                                return _shutil.rmtree(p_, *a, **k)
+                        real_mkdir = _P.mkdir
+
+                        def mk(self_, *a, **k):
+                            if self_ == pth:
+                                rec.append(("out_dir.mkdir",))
+                            return real_mkdir(self_, *a, **k)
+                        CLI.shutil, _P.mkdir = ShProxy(), mk
+                        try:
+                            try:
+                                CLI._validate_output_dir(pth, ow)
+                                real = tuple(x for r_ in rec for x in r_)
+                            except RuntimeError:
+                                real = "ERR:RuntimeError"
+                        finally:
+                            CLI.shutil, _P.mkdir = _shutil, real_mkdir
+                        # arguments in the generated function's order: overwrite, any(iterdir), exists, is_dir
+                        compare("_validate_output_dir", [ow, nonempty, exists, isdir], real)
+                        if real != "ERR:RuntimeError" and nonempty and (not pth.is_dir() or any(pth.iterdir())) and res.disagreement is None:
+                            res.disagreement = {"what": "overwrite did not leave an empty directory", "model": "-", "impl": str(sorted(x.name for x in pth.iterdir()) if pth.is_dir() else "gone")}
+                finally:
+                    _shutil.rmtree(base, ignore_errors=True)
             if "config" in which:
                 import bblean as BBL
                 crits = list(M.BUILTIN_MERGES)
